@@ -77,6 +77,17 @@ pub fn run(ctx: &Ctx) {
                     } else if out.len() != n + 2 {
                         ctx.violation(concat!("fixint-le-", stringify!($t)), "wrong length".into(), $order, json!({"value": x.to_string()}));
                     }
+                    // every decode entry point, the readers with an EMPTY scratch buffer (a fixint needs none)
+                    let mut none: [u8; 0] = [];
+                    match postcard::from_io::<$le, _>((&out[..], &mut none[..])) {
+                        Ok((back, _)) if back == v => {}
+                        other => ctx.violation(concat!("fixint-le-", stringify!($t)), format!("from_io with empty scratch: {:?}", other.map(|x| x.0)), $order, json!({"type": stringify!($t), "order": "le", "value": x.to_string()})),
+                    }
+                    let mut none: [u8; 0] = [];
+                    match postcard::from_eio::<$le, _>((crate::checks::c01::EioSlice(&out[..]), &mut none[..])) {
+                        Ok((back, _)) if back == v => {}
+                        other => ctx.violation(concat!("fixint-le-", stringify!($t)), format!("from_eio with empty scratch: {:?}", other.map(|x| x.0)), $order, json!({"type": stringify!($t), "order": "le", "value": x.to_string()})),
+                    }
                     match postcard::from_bytes::<$le>(out) {
                         Ok(back) if back == v => {}
                         other => ctx.violation(concat!("fixint-le-", stringify!($t)), format!("decoded {:?}", other), $order, json!({"type": stringify!($t), "order": "le", "value": x.to_string()})),
@@ -92,6 +103,11 @@ pub fn run(ctx: &Ctx) {
                     want.push(0xB2);
                     if out != &want[..] {
                         ctx.violation(concat!("fixint-be-", stringify!($t)), format!("bytes {} want {}", hex(out), hex(&want)), $order, json!({"type": stringify!($t), "order": "be", "value": x.to_string()}));
+                    }
+                    let mut none: [u8; 0] = [];
+                    match postcard::from_io::<$be, _>((&out[..], &mut none[..])) {
+                        Ok((back, _)) if back == v => {}
+                        other => ctx.violation(concat!("fixint-be-", stringify!($t)), format!("from_io with empty scratch: {:?}", other.map(|x| x.0)), $order, json!({"type": stringify!($t), "order": "be", "value": x.to_string()})),
                     }
                     match postcard::from_bytes::<$be>(out) {
                         Ok(back) if back == v => {}
